@@ -193,3 +193,119 @@ pub fn run_verify(ctx: &mut Ctx, args: &[String]) {
                "EvaluationDomain::evaluate_vanishing_polynomial", "TranscriptProtocol for merlin::Transcript"]),
     );
 }
+
+// ---------------------------------------------------------------------------
+// Prover with symbolic blinders (C06) / symbolic SRS
+// ---------------------------------------------------------------------------
+
+/// Small concrete circuits for prover runs.
+#[derive(Clone, Default)]
+pub struct TinyCircuit {
+    pub kind: usize,
+    pub a: BlsScalar,
+    pub b: BlsScalar,
+}
+
+impl Circuit for TinyCircuit {
+    fn circuit(&self, c: &mut Composer) -> Result<(), Error> {
+        match self.kind {
+            0 => {}
+            1 => {
+                // a*b = pi, a + b = s (s unconstrained further)
+                let a = c.append_witness(self.a);
+                let b = c.append_witness(self.b);
+                let m = c.gate_mul(Constraint::new().mult(1).a(a).b(b));
+                c.assert_equal_constant(m, BlsScalar::zero(), Some(self.a * self.b));
+                let _ = c.gate_add(Constraint::new().left(1).right(1).a(a).b(b));
+            }
+            _ => {
+                // custom gates: a 4-bit range check and a 1-pair AND
+                let a = c.append_witness(BlsScalar::from(11u64));
+                let b = c.append_witness(BlsScalar::from(6u64));
+                c.component_range_bits::<4>(a);
+                let x = c.append_logic_and::<1>(a, b);
+                c.assert_equal_constant(x, BlsScalar::from(2u64), None);
+            }
+        }
+        Ok(())
+    }
+}
+
+fn seeded(seed: u64, name: &str) -> BlsScalar {
+    crate::concrete_from_name(seed, name)
+}
+
+pub const PROVER_CHALLENGES: [&str; 11] = [
+    "beta", "gamma", "alpha", "range_separation_challenge", "logic_separation_challenge",
+    "fixed_base_separation_challenge", "variable_base_separation_challenge", "z_challenge", "v_challenge",
+    "v_w_challenge", "u_challenge",
+];
+
+/// `prove <kind>`: the real `Compiler::compile_with_circuit` + `Prover::prove` on
+/// a concrete circuit and witness, with a symbolic SRS (secret x, bases), the
+/// 14 blinders symbolic (`blind0..13`) and the Fiat-Shamir challenges scripted
+/// to seed-derived concrete values.
+pub fn run_prove(ctx: &mut Ctx, args: &[String]) {
+    use crate::kernels::{g1_dlog, ScriptedRng};
+    let kind: usize = args[0].parse().unwrap();
+    let circuit = TinyCircuit { kind, a: BlsScalar::from(3u64), b: BlsScalar::from(5u64) };
+    let mut probe = Composer::initialized();
+    circuit.circuit(&mut probe).unwrap();
+    let n = probe.constraints();
+    #[cfg(feature = "sym")]
+    {
+        dusk_bls12_381::sym::set_transcript_symbolic(true);
+        let script: Vec<(String, BlsScalar)> =
+            PROVER_CHALLENGES.iter().map(|l| (l.to_string(), seeded(ctx.seed, l))).collect();
+        dusk_bls12_381::sym::set_challenge_script(script);
+    }
+    let mut srs_rng = ScriptedRng::with_prefix(ctx, "srs", 8);
+    let pp = PublicParameters::setup((n + 6).next_power_of_two(), &mut srs_rng).expect("setup");
+    let (prover, verifier) = Compiler::compile_with_circuit(&pp, b"verif-prove", &circuit).expect("compile");
+    let mut rng = ScriptedRng::with_prefix(ctx, "blind", 20);
+    let r = prover.prove(&mut rng, &circuit);
+    ctx.out_json("rng_log", json!(rng.log));
+    ctx.out_json("n", json!(n));
+    let chals: serde_json::Map<String, Value> =
+        PROVER_CHALLENGES.iter().map(|l| (l.to_string(), json!(crate::hex(&seeded(ctx.seed, l))))).collect();
+    ctx.out_json("challenges", Value::Object(chals));
+    match r {
+        Ok((proof, pis)) => {
+            let b = proof.to_bytes();
+            let mut comms = serde_json::Map::new();
+            for (i, name) in PROOF_COMMS.iter().enumerate() {
+                let mut c = [0u8; 48];
+                c.copy_from_slice(&b[48 * i..48 * (i + 1)]);
+                let p = G1Affine::from_bytes(&c).expect("own encoding");
+                comms.insert(name.to_string(), g1_dlog(ctx, &p));
+            }
+            let mut evals = serde_json::Map::new();
+            for (i, name) in PROOF_EVALS.iter().enumerate() {
+                let mut c = [0u8; 32];
+                c.copy_from_slice(&b[528 + 32 * i..528 + 32 * (i + 1)]);
+                let s = BlsScalar::from_bytes(&c).expect("own encoding");
+                evals.insert(name.to_string(), ctx.scalar_json(&s));
+            }
+            ctx.out_json("comms", Value::Object(comms));
+            ctx.out_json("evals", Value::Object(evals));
+            ctx.out_json("pis", Value::Array(pis.iter().map(|p| ctx.scalar_json(p)).collect()));
+            // the proof is also checked by the real verifier (same scripted oracle)
+            let v = verifier.verify(&proof, &pis);
+            ctx.out_json("verified", json!(format!("{:?}", v)));
+        }
+        Err(e) => ctx.out_json("error", json!(format!("{:?}", e))),
+    }
+    #[cfg(feature = "sym")]
+    {
+        let (_taken, path) = dusk_bls12_381::sym::end_run();
+        ctx.out_json("path", crate::path_json(&path));
+    }
+    ctx.meta.insert(
+        "functions".into(),
+        json!(["Compiler::compile_with_circuit", "Compiler::preprocess", "Prover::new", "Prover::prove",
+               "Prover::prove_inner", "Prover::sample_wire_blinders", "Prover::blind_wire_polynomials",
+               "Prover::blind_poly", "Prover::blind_poly_with_blinders", "Permutation::compute_permutation_vec",
+               "quotient_poly::compute", "linearization_poly::compute", "CommitKey::commit",
+               "CommitKey::compute_aggregate_witness", "Verifier::verify"]),
+    );
+}
